@@ -380,10 +380,14 @@ def decode_model_run(answer):
     return {"rc": int(rc), "outcome": outcome, "events": evs, "ops": ops, "tree": entries}
 
 
-def canonical_tree(snap, ids, contents):
+def canonical_tree(snap, ids, contents, dir_inodes=None):
+    """`dir_inodes`: the inode numbers that were directories before the run.  The kernel may give a directory created by
+    the run the number of a file the run has just replaced (override): such a directory is a NEW entry, not that file."""
     out = {}
     for p, (v, ino) in snap.items():
         i = ids.get(ino, -1)
+        if v is None and dir_inodes is not None and ino not in dir_inodes:
+            i = -1
         if v is None:
             out[p] = [i, "d", 0]
         elif v[0] == "link":
@@ -402,7 +406,8 @@ def compare_with_model(case, obs, dry_override=None):
     maxid = len(ids)
     mtree = {p: [i if i <= maxid else -1, k, c] for p, (i, k, c) in m["tree"].items()}
     real = {"rc": obs["rc"], "events": obs["events"], "ops": [o for o in obs["ops"] if o[0] != "fault"],
-            "tree": canonical_tree(obs["after"], ids, contents)}
+            "tree": canonical_tree(obs["after"], ids, contents,
+                                   dir_inodes={ino for _, (v, ino) in obs["before"].items() if v is None})}
     model = {"rc": m["rc"], "events": m["events"], "ops": m["ops"], "tree": mtree}
     return True, real == model, {"real": real, "model": model}
 
